@@ -16,6 +16,7 @@ import functools
 import itertools
 import os
 import re
+import shutil
 import subprocess
 import time
 from concurrent.futures import ThreadPoolExecutor
@@ -829,7 +830,28 @@ def run(ctx):
             ctx.verdicts.violation(f"failing_cmp|{m['fn']}|leak_after_violation", c, {"expected": "0 bytes / 0 live objects after drop", "observed": ad})
             continue
         ok += 1
+    # ---- valgrind memcheck over the whole interpreter on the sort / heap paths (the unsafe code as the interpreter really calls it)
+    vg = {"cases": 0, "clean": 0, "available": shutil.which("valgrind") is not None}
+    if vg["available"]:
+        vcases = []
+        pool = [c for c in fcases if c["meta"]["kind"] == "error_pair"][:ctx.pick(6, 60)] + sw_cases[:ctx.pick(6, 60)]
+        pool += [dict(batch.solo_case(ctx, it, dump={"per": 60, "nodes": 400}), meta={"fn": it["op"]}) for it in sitems[:ctx.pick(8, 80)]]
+        for k, c in enumerate(pool):
+            vcases.append(dict(c, id=f"C19-vg-{k}"))
+        vobs = core.run_cases(ctx.binary, vcases, "C19_valgrind", case_timeout_ms=300000, nproc=core.NPROC, chunk=max(1, len(vcases) // core.NPROC),
+                              wrapper=["valgrind", "--quiet", "--error-exitcode=99", "--leak-check=no", "--track-origins=no"], as_gib=None)
+        for c, o in zip(vcases, vobs):
+            total += 1
+            vg["cases"] += 1
+            if o.get("died") and o.get("rc") == 99:
+                ctx.verdicts.violation(f"valgrind|{c['meta'].get('fn')}|memcheck_error", c, {"expected": "no memcheck report", "observed": (o.get("stderr") or "")[-1500:]})
+            elif o.get("died") or o.get("timeout") or o.get("harness_error"):
+                ctx.verdicts.inconclusive_case("valgrind lane: " + str({k2: o.get(k2) for k2 in ("died", "timeout", "rc", "harness_error")})[:200], c)
+            else:
+                vg["clean"] += 1
+                ok += 1
     lanes = lanes_future.result()
+    lanes["valgrind_memcheck_through_the_interpreter"] = vg
     total += len(lanes["shards"])
     samples = [{"law_triple": items[0]["srcs"], "type": items[0]["t"].text()}, {"format": fitems[0]["expr"], "expected": sorted(fitems[0]["expect_set"])},
                {"sort": sitems[0]["expr"][:300]}, {"isolated_shard": lanes["shards"][0]}]
